@@ -38,9 +38,14 @@ def cfgs(tier):
         box = rnd.choice([b for b in PC.BOXES if len(b) == D])
         n = rnd.choice([100, 200, 300]) if tier == "quick" else rnd.choice([100, 300, 600, 1000])
         prm = rnd.choice([{}, {"nu": 1, "rho": 0.5}, {"nu": 2, "rho": 0.7}, {"nu": round(rnd.uniform(0.5, 6), 2), "rho": round(rnd.uniform(0.4, 0.95), 2)}])
+        if rep % 5 == 4:      # orthant splits refined several times: fast-shrinking radius, D >= 2
+            kind, Kk, D = "dbin", 2, rnd.choice([2, 2, 3])
+            box = rnd.choice([b for b in PC.BOXES if len(b) == D])
+            prm = rnd.choice([{"nu": 4, "rho": 0.7}, {"nu": 6, "rho": 0.7}, {"nu": 4, "rho": 0.5}])
+            n = 300
         i += 1
         out.append({"id": i, "algo": "Zooming", "kind": kind, "K": Kk, "D": D, "box": box, "n": n, "T": n, "prm": prm, "pattern": rnd.choice(["g01", "peak", "bern", "gneg", "const"]), "seed": rnd.randrange(1 << 30),
-                    "queries": sorted(rnd.sample(range(n), 3)) if rep % 3 == 0 else []})
+                    "queries": sorted(rnd.sample(range(n), 3)) if rep % 3 == 0 else [], "midq": sorted(rnd.sample(range(n), 3)) if rep % 4 == 1 else []})
     return out
 
 
